@@ -1,3 +1,12 @@
 chk("C04", "exploration", "runtime monitoring: model-based oracle (reference model M) over seeded API programs in child processes; checkptr/ASan passes",
     "Every API result, error and full dump of thousands of generated programs (all structural thresholds, 4 page sizes, both backends, reopen/rollback points) is compared with an independent reference model; held on the executions explored, not a proof.",
     "Trusted: the reference model M (harness/model), the generators' reach. checkptr/ASan see heap buffers only, not the mmap.", "DESIGN.md §4 C04")
+chk("C05", "exploration", "runtime monitoring: cursor calls vs a sorted-list-with-position oracle over generated bucket states and dirty write transactions; loop-step budget hook for hangs; checkptr pass",
+    "Every First/Last/Next/Prev/Seek result of seeded call sequences (plus complete scans in both directions) over bucket states from empty to 3-level trees, with uncommitted puts and whole-range deletes that leave emptied leaves, is compared with a sorted list with a position; a cursor that exceeds a logical step budget is a hang.",
+    "Trusted: the sorted-list oracle; cursors are repositioned after mutations as the documentation requires.", "DESIGN.md §4 C05")
+chk("C07", "exploration", "runtime monitoring: quiescent-point invariant (independent decoder D partitions the file; Tx.Check, DB.Stats, Tx.Page and the allocator export must agree)",
+    "After every commit, rollback and reopen of bucket-delete/move-heavy programs the file image is partitioned by an independent decoder into meta/freelist/reachable-once/free-once and compared with Tx.Check, DB.Stats, Tx.Page and the exact allocator state.",
+    "Trusted: D (harness/decode). Failed commits are covered by C08's accounting.", "DESIGN.md §4 C07")
+chk("C12", "exploration", "runtime monitoring: independent version-2 decoder D on every file image the code writes + golden corpus of the pinned build",
+    "Every file image produced by generated programs is decoded by a from-scratch reader of the published layout and must equal the API dump; 41 golden files written by the pinned build (incl. a >65535-id freelist) must decode and open to their recorded content.",
+    "Trusted: D encodes my reading of the layout, validated against the pinned build's own files.", "DESIGN.md §4 C12")
